@@ -30,7 +30,7 @@ ASSUMPTIONS = [
 ]
 REQUIRED_COUNTERS = ['faults_fired', 'faults_fired_while_building_algorithm', 'reach_again_checked', 'faults_fired_suggest', 'faults_fired_early_stop',
                      'short_deliveries', 'unfinished_operation_scans', 'client_poll_probes']
-MIN_DISTINCT = {'quick': 120, 'thorough': 2000}
+MIN_DISTINCT = {'quick': 120, 'thorough': 1000}
 
 EXC = ['ValueError', 'KeyError', 'RuntimeError', 'StubFault', 'AssertionError', 'TypeError',
        'ZeroDivisionError', 'RpcError']
